@@ -157,6 +157,15 @@ func init() {
 			}
 			cov["long_offline_pass"] = lcov
 			viols = append(viols, lviols...)
+			// fourth pass: wallet-database transactions of several thousand records (a block paying
+			// the wallet 1500 outputs, an import that derives 2100 addresses at once), stopped
+			// before every commit
+			bcov, bviols, err := largeTxPass(c)
+			if err != nil {
+				return nil, nil, nil, err
+			}
+			cov["large_transaction_pass"] = bcov
+			viols = append(viols, bviols...)
 			cov["rule"] = "base histories = shortest history of every state of the C01 space (deliver / 12 block templates / reorgs) up to the base depth; for each, a dry run over the db seam counts the wallet-database commits n, then for EVERY k<n the history is re-run and the process is stopped before commit k (commit not applied, all volatile state dropped, later notifications lost); " +
 				"the wallet is then restarted on the same database through the real start-up path (new manager, NtfnsHandler.Start catch-up, follower + worker goroutines until idle, Stop) and all ledger queries are compared with the reference ledger of the node's final chain; distinct_nontrivial = distinct recovered observations"
 			return cov, []string{
@@ -218,6 +227,62 @@ func mergeFaultCov(cov, t map[string]interface{}, name string) {
 	if e, _ := t["exhaustive"].(bool); !e {
 		cov["exhaustive"] = false
 	}
+}
+
+// largeTxPass: directed histories whose commits carry thousands of records each; every commit
+// of every history is a crash point.
+func largeTxPass(c *runCtx) (map[string]interface{}, []violation, error) {
+	bases := [][]string{
+		{"x.pm.1500.1000", "d"},
+		{"x.pm.1500.1000", "d", "x.e", "d", "r.2.R", "d"},
+		{"i.mB"},
+		{"x.pc0", "d", "i.mB", "i.s"},
+	}
+	opts := map[string]interface{}{"tasks": true}
+	deadline := time.Now().Add(10 * time.Minute)
+	dry, _, err := runTasks(c.Bin, c.Scratch, "c06", opts, bases, c.Workers, 20, deadline)
+	if err != nil {
+		return nil, nil, err
+	}
+	var tasks [][]string
+	points := 0
+	for i, h := range bases {
+		r := dry[i]
+		if r == nil {
+			continue
+		}
+		if r.Err != "" {
+			return nil, nil, fmt.Errorf("large-transaction history %v: %s", h, r.Err)
+		}
+		if len(r.Viol) > 0 {
+			continue // violates without any crash: reported by the property the history belongs to
+		}
+		for k := 0; k < r.Info["commits"]; k++ {
+			tasks = append(tasks, append(append([]string{}, h...), fmt.Sprintf("#crash:%d", k)))
+		}
+		points += r.Info["commits"]
+	}
+	res, _, err := runTasks(c.Bin, c.Scratch, "c06", opts, tasks, c.Workers, 20, deadline)
+	if err != nil {
+		return nil, nil, err
+	}
+	done, inconclusive := 0, 0
+	var viols []violation
+	for i, r := range res {
+		if r == nil {
+			continue
+		}
+		if r.Err != "" {
+			return nil, nil, fmt.Errorf("large-transaction task %v: %s", tasks[i], r.Err)
+		}
+		done++
+		inconclusive += r.Info["inconclusive"]
+		if len(r.Viol) > 0 {
+			viols = append(viols, violation{Hist: tasks[i], Viol: r.Viol, Known: r.KnownTags, Detail: r.Detail, Opts: opts})
+		}
+	}
+	return map[string]interface{}{"histories": len(bases), "crash_points": points, "runs_completed": done, "inconclusive_runs": inconclusive,
+		"what": "a block paying the wallet 1500 outputs (also reorganised away and mined again), an import call deriving 2100 addresses, one rescan batch after it"}, viols, nil
 }
 
 // longOfflinePass runs the directed "down for 2000+ blocks" histories of C06.
